@@ -915,9 +915,9 @@ impl<const N: u32> PxE2<{ N }> {
 
                 let shift = 32 - N;
                 if ((u_z >> shift) != (0x_7FFF_FFFF >> shift))
-                    && (((0x_8000_0000_u32 >> N) & u_z) != 0)
+                    && ((crate::u32_zero_shr(0x_8000_0000, N) & u_z) != 0)
                     && ((((0x_8000_0000_u32 >> (N - 1)) & u_z) != 0)
-                        || (((0x_7FFF_FFFF_u32 >> N) & u_z) != 0))
+                        || ((crate::u32_zero_shr(0x_7FFF_FFFF, N) & u_z) != 0))
                 {
                     u_z += 0x1 << shift;
                 }
@@ -982,9 +982,9 @@ impl<const N: u32> PxE2<{ N }> {
 
             let shift = 32 - N;
             if ((u_z >> shift) != (0x_7FFF_FFFF >> shift))
-                && ((((0x_8000_0000_u32 >> N) & u_z) != 0)
+                && (((crate::u32_zero_shr(0x_8000_0000, N) & u_z) != 0)
                     && ((((0x_8000_0000_u32 >> (N - 1)) & u_z) != 0)
-                        || (((0x_7FFF_FFFF_u32 >> N) & u_z) != 0)))
+                        || ((crate::u32_zero_shr(0x_7FFF_FFFF, N) & u_z) != 0)))
             {
                 u_z += 0x1 << shift;
             }
@@ -1214,9 +1214,9 @@ impl<const N: u32> PxE1<{ N }> {
             let shift = 32 - N;
 
             if ((u_z >> shift) != (0x_7FFF_FFFF >> shift))
-                && (((0x_8000_0000_u32 >> N) & u_z) != 0)
+                && ((crate::u32_zero_shr(0x_8000_0000, N) & u_z) != 0)
                 && ((((0x_8000_0000_u32 >> (N - 1)) & u_z) != 0)
-                    || (((0x_7FFF_FFFF_u32 >> N) & u_z) != 0))
+                    || ((crate::u32_zero_shr(0x_7FFF_FFFF, N) & u_z) != 0))
             {
                 u_z += 0x1 << shift;
             }
